@@ -268,6 +268,8 @@ class SymExec:
                     return {"None": 0, "Some": 1}.get(vname)
                 if adt.endswith("result::Result"):
                     return {"Ok": 0, "Err": 1}.get(vname)
+                if adt.endswith("ops::ControlFlow"):
+                    return {"Continue": 0, "Break": 1}.get(vname)
         if isinstance(t, tuple) and t[0] == "c" and isinstance(t[2], int):
             return t[2]
         if isinstance(t, tuple) and t[0] == "adt" and not t[2]:
@@ -426,6 +428,14 @@ class SymExec:
             d = ("discr", args[0])
             kd = self.known_discr(d)
             return [((), ("c", "isize", kd) if kd is not None else d, False)]
+        if cal.endswith(" as std::ops::Try>::branch") and args:
+            # `x?` on a value whose variant is known: Continue(payload) / Break(residual); a symbolic value stays opaque
+            a0 = strip_transparent(args[0])
+            if isinstance(a0, tuple) and a0[0] == "adt":
+                if a0[1].endswith("Option::Some") or a0[1].endswith("Result::Ok"):
+                    return [((), ("adt", "std::ops::ControlFlow::Continue", (a0[2][0],) if a0[2] else ()), False)]
+                if a0[1].endswith("Option::None"):
+                    return [((), ("adt", "std::ops::ControlFlow::Break", (("adt", "std::option::Option::None", ()),)), False)]
         if cal.startswith("<std::option::Option<T> as std::ops::FromResidual") and cal.endswith("::from_residual"):
             # `expr?` on an Option in a function returning Option: the early return value is None
             return [((), ("adt", "std::option::Option::None", ()), False)]
